@@ -13,7 +13,18 @@ From BB Require Import BN Brute SpaceFacts TrapFacts PercolateFacts AttractorFac
   Strict PetriNet Control Meta FilterFacts PetriNetFacts TrappistFacts DiagramStruct DiagramSem1 DiagramCache
   DiagramDepth DiagramComplete Termination ControlFacts MetaFacts Candidates StrictFacts MinExpandFacts CandidatesFacts SymbolicTest SymbolicTestFacts Signed ReductionFacts ControlFacts2 Main Blocks BlocksFacts ObsFacts OwnerFacts CandidatesTerm
   PartialOwner BlockMath BlockComplete ASeeds ASeedsFacts LogChecks SkipRule SkipRuleFacts Names NamesFacts Perm PermFacts SCC SCCFacts SCCStruct ControlFacts3 SCCTerm FilterSym Main2 StrategyFacts ControlFacts4 SkipRuleFacts2 SCCComplete SCCAttr BlockComplete2 ControlFacts5 Iso SkipSem ControlFacts6.
-From BB Require Import PyLib PyLibSd PySrcSdBase PySrcSd PySrcSdFacts.
+From BB Require Import PyLib PyLibSd PySrcSdBase PySrcSd PySrcSdFacts PyLibCore PySrcCore PySrcCoreFacts.
+
+(* translator tie: the function GENERATED from the current text of SuccessionDiagram._expand_one_node (PySrcCore.v; embedding PyLibCore.v) computes Diagram.expand_one for every diagram satisfying the class invariant CoreInv, every oracle for the percolated-net cache, and preserves CoreInv *)
+Theorem C02_source_expand_one_node : forall (fuel : nat) (N : net) (cfg : config) (pnc : nat -> bool) (w : pyst) (i : nat), CoreInv N w -> i < size (p_sd w) -> 1 <= max_motifs cfg -> S (size (fst (expand_one N cfg (p_sd w) i))) < fuel -> exists w' : pyst, p_sd w' = fst (expand_one N cfg (p_sd w) i) /\ CoreInv N w' /\ match snd (expand_one N cfg (p_sd w) i) with | RUnit => py_expand_one_node fuel N cfg pnc w i = CRet w' Datatypes.tt \/ py_expand_one_node fuel N cfg pnc w i = CNext w' Datatypes.tt | RBool b => py_expand_one_node fuel N cfg pnc w i = CRaise w' (RBool b) | RNat k => py_expand_one_node fuel N cfg pnc w i = CRaise w' (RNat k) | RIds l => py_expand_one_node fuel N cfg pnc w i = CRaise w' (RIds l) | RRaised e => py_expand_one_node fuel N cfg pnc w i = CRaise w' (RRaised e) | RFuel => py_expand_one_node fuel N cfg pnc w i = CRaise w' RFuel end.
+Proof. exact py_expand_one_node_spec. Qed.
+
+(* ... _ensure_node / _ensure_edge / _update_node_depth compute Diagram.ensure_node *)
+Theorem C02_source_ensure_node : forall (fuel : nat) (N : net) (cfg : config) (pnc : nat -> bool) (w : pyst) (p : nat) (m : list (option bool)), CoreInv N w -> p < size (p_sd w) -> length m = nvars N -> trap_space N m -> strict_subspace (percolate_b N m) (n_space (get (p_sd w) p)) -> S (size (p_sd w)) < fuel -> exists w' : pyst, py_ensure_node fuel N cfg pnc w (Some p) m = CRet w' (snd (ensure_node N (p_sd w) (Some p) m)) /\ p_sd w' = fst (ensure_node N (p_sd w) (Some p) m) /\ CoreInv N w'.
+Proof. exact py_ensure_node_spec. Qed.
+
+Theorem C02_source_class_invariant_initially : forall N0 : net, exists idx : list (N * nat), CoreInv N0 {| p_sd := init N0; p_idx := idx |}.
+Proof. exact init_CoreInv. Qed.
 
 (* translator tie: the function GENERATED from the current text of biobalm/_sd_algorithms/expand_bfs.py (PySrcSd.v, regenerated on every run; embedding PyLibSd.v) equals the model's expand_bfs for every diagram, every limit and every fuel *)
 Theorem C02_source_expand_bfs : forall (fuel : nat) (N : net) (cfg : config) (d : sd) (start level_limit size_limit : option nat), py_expand_bfs fuel N cfg d start level_limit size_limit = expand_bfs fuel N cfg d start level_limit size_limit.
@@ -59,6 +70,9 @@ Definition ex_cfg : config := {| max_motifs := 1000 |}.
 Example C02_example : exists d, expand_bfs 100 ex_sw ex_cfg (init ex_sw) None None None = (d, RBool true) /\ size d = 9.
 Proof. eexists. split. vm_compute. reflexivity. vm_compute. reflexivity. Qed.
 
+Print Assumptions C02_source_expand_one_node.
+Print Assumptions C02_source_ensure_node.
+Print Assumptions C02_source_class_invariant_initially.
 Print Assumptions C02_source_expand_bfs.
 Print Assumptions C02_source_expand_dfs.
 Print Assumptions C02_bfs_hierarchy.
